@@ -1,0 +1,137 @@
+// SPDX-License-Identifier: Apache-2.0 OR MIT
+
+//! Verification hooks (only with `--cfg fast_tlsh_verif`): generator state
+//! injection and read-back.
+//!
+//! Nothing in this module is compiled unless the `fast_tlsh_verif` cfg is set.
+
+#![cfg(fast_tlsh_verif)]
+#![allow(missing_docs)]
+#![allow(clippy::missing_docs_in_private_items)]
+
+use super::*;
+
+/// A plain copy of the internal state of a generator.
+#[derive(Debug, Clone, PartialEq, Eq)]
+pub struct VerifGeneratorState {
+    /// Physical buckets (only the first `num_physical` are meaningful).
+    pub buckets: [u32; 256],
+    /// Number of physical buckets in this configuration.
+    pub num_physical: usize,
+    /// `len` (bytes consumed after the tail filled).
+    pub len: u32,
+    /// The tail.
+    pub tail: [u8; WINDOW_SIZE - 1],
+    /// The effective tail length.
+    pub tail_len: u32,
+    /// The checksum (only the first `checksum_len` are meaningful).
+    pub checksum: [u8; 3],
+    /// The checksum size.
+    pub checksum_len: usize,
+}
+
+/// State injection / read-back for generators.
+pub trait VerifGeneratorHook: Sized {
+    /// Construct a generator from an explicit state.
+    ///
+    /// `buckets` is copied to the physical buckets (as many as both have),
+    /// `checksum` must have at least the checksum size of the variant.
+    fn verif_from_state(
+        buckets: &[u32],
+        len: u32,
+        tail: [u8; WINDOW_SIZE - 1],
+        tail_len: u32,
+        checksum: &[u8],
+    ) -> Self;
+    /// Read the state back.
+    fn verif_state(&self) -> VerifGeneratorState;
+}
+
+impl<
+        const SIZE_CKSUM: usize,
+        const SIZE_BODY: usize,
+        const SIZE_BUCKETS: usize,
+        const SIZE_IN_BYTES: usize,
+        const SIZE_IN_STR_BYTES: usize,
+    > VerifGeneratorHook
+    for inner::Generator<SIZE_CKSUM, SIZE_BODY, SIZE_BUCKETS, SIZE_IN_BYTES, SIZE_IN_STR_BYTES>
+where
+    FuzzyHashBodyData<SIZE_BODY>: FuzzyHashBody,
+    FuzzyHashBucketsInfo<SIZE_BUCKETS>: FuzzyHashBucketMapper<
+        RawBodyType = [u8; SIZE_BODY],
+        RawBucketType = [u32; SIZE_BUCKETS],
+    >,
+    FuzzyHashChecksumData<SIZE_CKSUM, SIZE_BUCKETS>: FuzzyHashChecksum,
+    VerboseFuzzyHashParams<SIZE_CKSUM, SIZE_BODY, SIZE_BUCKETS, SIZE_IN_BYTES, SIZE_IN_STR_BYTES>:
+        ConstrainedVerboseFuzzyHashParams,
+    LengthProcessingInfo<SIZE_BUCKETS>: ConstrainedLengthProcessingInfo,
+{
+    fn verif_from_state(
+        buckets: &[u32],
+        len: u32,
+        tail: [u8; WINDOW_SIZE - 1],
+        tail_len: u32,
+        checksum: &[u8],
+    ) -> Self {
+        let mut this = Self::default();
+        let n = core::cmp::min(this.buckets.buckets.len(), buckets.len());
+        this.buckets.buckets[..n].copy_from_slice(&buckets[..n]);
+        this.len = len;
+        this.tail = tail;
+        this.tail_len = tail_len;
+        let ck: [u8; SIZE_CKSUM] = checksum[..SIZE_CKSUM].try_into().unwrap();
+        this.checksum = FuzzyHashChecksumData::from_raw(&ck);
+        this
+    }
+
+    fn verif_state(&self) -> VerifGeneratorState {
+        let mut buckets = [0u32; 256];
+        let n = self.buckets.buckets.len();
+        buckets[..n].copy_from_slice(&self.buckets.buckets[..]);
+        let mut checksum = [0u8; 3];
+        checksum[..SIZE_CKSUM].copy_from_slice(self.checksum.data());
+        VerifGeneratorState {
+            buckets,
+            num_physical: n,
+            len: self.len,
+            tail: self.tail,
+            tail_len: self.tail_len,
+            checksum,
+            checksum_len: SIZE_CKSUM,
+        }
+    }
+}
+
+/// Implements the hook for the public wrapper with a concrete hash type.
+macro_rules! verif_impl_public {
+    ($($ty:ty;)*) => {
+        $(
+            impl VerifGeneratorHook for Generator<$ty> {
+                fn verif_from_state(
+                    buckets: &[u32],
+                    len: u32,
+                    tail: [u8; WINDOW_SIZE - 1],
+                    tail_len: u32,
+                    checksum: &[u8],
+                ) -> Self {
+                    Self {
+                        inner: VerifGeneratorHook::verif_from_state(
+                            buckets, len, tail, tail_len, checksum,
+                        ),
+                    }
+                }
+                fn verif_state(&self) -> VerifGeneratorState {
+                    self.inner.verif_state()
+                }
+            }
+        )*
+    };
+}
+
+verif_impl_public! {
+    crate::hashes::Short;
+    crate::hashes::Normal;
+    crate::hashes::NormalWithLongChecksum;
+    crate::hashes::Long;
+    crate::hashes::LongWithLongChecksum;
+}
